@@ -33,6 +33,9 @@ F4  the sort key of the two `events.sort(key=K)` statements (IncidentReporter.in
     incident and as broken proofs); `lambda a: a['num'] if isinstance(a['num'], int) else d` -> KeyIntElse d; the same
     conditional with the test negated and the branches swapped is the same function (`not` of the bool that isinstance
     returns).  Any other key is rejected.
+F5  (round 7) IncidentReporter.incident_declared: the top-level statements that touch self.f1 (open, MAGIC, header, the
+    snapshot loop, flush) are emitted in source order as incident_f1_ops; lib/LogDisk.v derives from the list what is on
+    disk when msg() returns; any other statement mentioning f1 fails closed.
 F3  Subscription.send():  `if len(self.queue) < MAX: append else: pass`  ==  the same `if` without an else branch
     (an absent else branch and `else: pass` both execute nothing when the test is false).
 Not accepted (stay fail-closed): IncidentReporter writing to both files with `for f in (self.f1, self.f2): ...`
@@ -272,6 +275,7 @@ def generate():
     out.append("Inductive trimkind := TrimWhile | TrimIf.")
     out.append("Inductive add_stage := StImmediate | StObservers | StAppend | StTrim | StQualifier.")
     out.append("Inductive inc_stage := IsHeader | IsSubscribe | IsSnapshot | IsFinish.")
+    out.append("Inductive f1_op := F1Magic | F1Header | F1Snapshot | F1Flush.")
 
     # ---- levels
     lv = level_consts()
@@ -442,6 +446,36 @@ def generate():
     # the key the snapshot (and, below, the catch-up batch) is sorted by: log.msg(num=..) buffers ANY object as the number
     out.append("Inductive numkey := KeyRaw | KeyIntElse (d : Z).")
     out.append("Definition incident_sort_key : numkey := %s.   (* incident_declared: events.sort(key=...) *)" % incident_key)
+    # round 7: what incident_declared does with the UNCOMPRESSED file (the only copy that exists while a trailing reporter
+    # waits), statement by statement in source order: writes and flushes.  The model (lib/LogDisk.v) interprets the list:
+    # what is guaranteed to be on disk when the triggering msg() returns is what was written before the last flush.  Any
+    # other top-level statement that mentions the file fails closed.
+    f1_ops = []
+    opened = False
+    for s in idf.body:
+        src = U(s)
+        if src == "self.f1 = open(self.abs_filename, 'wb')":
+            if f1_ops:
+                bail("incident_declared: the uncompressed file is opened after it is used")
+            opened = True
+        elif src == "self.f1.write(flogfile.MAGIC)":
+            f1_ops.append("F1Magic")
+        elif src.startswith("flogfile.serialize_header(self.f1, 'incident', trigger=triggering_event"):
+            f1_ops.append("F1Header")
+        elif isinstance(s, ast.For) and "self.f1" in src:
+            # (the loop's exact shape was checked with the snapshot above)
+            if src != ("for e in events:\n    flogfile.serialize_wrapper(self.f1, e, from_=self.tubid_s, rx_time=now)\n"
+                       "    flogfile.serialize_wrapper(self.f2, e, from_=self.tubid_s, rx_time=now)"):
+                bail("incident_declared: unrecognised loop over the uncompressed file")
+            f1_ops.append("F1Snapshot")
+        elif src == "self.f1.flush()":
+            f1_ops.append("F1Flush")
+        elif "f1" in src:
+            bail("incident_declared: unrecognised use of the uncompressed file: %r" % src[:120])
+    if not opened:
+        bail("incident_declared no longer opens the uncompressed file")
+    out.append("Definition incident_f1_ops : list f1_op := [%s].   (* incident_declared: writes / flushes of self.f1 *)"
+               % "; ".join(f1_ops))
     srcid = U(idf)
     for frag in ("self.f1.write(flogfile.MAGIC)", "self.f2.write(flogfile.MAGIC)",
                  "self.f2 = bz2.BZ2File(self.abs_filename_bz2_tmp, 'wb')", "self.f1 = open(self.abs_filename, 'wb')"):
